@@ -14,7 +14,7 @@ use std::collections::{BTreeMap, BTreeSet};
 use wit_bindgen_core::{name_package_module, Files, WorldGenerator};
 use wit_parser::Resolve;
 
-const NAMES: [&str; 4] = ["foo", "foo-bar", "bar", "foo1"];
+const NAMES: [&str; 3] = ["foo", "foo-bar", "foo1"];
 const VERSIONS: [&str; 14] = [
     "",
     "1.0.0",
@@ -128,10 +128,14 @@ fn eval(ids: &[String], irefs: &[String], with_gen: bool) -> Eval {
         by_name.entry(m.clone()).or_default().push(id.clone());
         ev.names.push(m);
     }
+    // every colliding *pair* is one finding (a group of three is three pairs), so that the
+    // same collision has the same key whatever else is in the package set
     for (m, mut v) in by_name {
-        if v.len() > 1 {
-            v.sort();
-            ev.collisions.push((m, v));
+        v.sort();
+        for i in 0..v.len() {
+            for j in i + 1..v.len() {
+                ev.collisions.push((m.clone(), vec![v[i].clone(), v[j].clone()]));
+            }
         }
     }
     if with_gen {
@@ -360,6 +364,10 @@ fn main() {
     for (key, (_, what, detail)) in &found {
         run.violation(key, what, detail.clone());
     }
+    println!(
+        "C27 collision keys ({ncoll}): {}",
+        found.keys().cloned().collect::<Vec<_>>().join(" ; ")
+    );
     run.finish(
         json!({
             "alphabet": {"namespace": "t", "names": NAMES, "versions": VERSIONS},
